@@ -192,6 +192,8 @@ def run(ctx, rep):
                 if not ok:
                     rep.finding(R2, f'C16.R2/rule.apply/{mod}:{qn}', m.loc(mod, c), qn, 'a rule is applied outside Tableau.step (the step would not be recorded/limited)')
 
+    fold_listeners(ctx, rep, R2, ab, ac, ana, atk, ara)
+
     R3 = rep.rule('C16.R3', 'branches only grow: closed branches refuse nodes first; no removal from a branch\'s node sequence')
     ap = m.func(COMMON, 'Branch.append')
     b = astq.stmts(ap)
@@ -266,3 +268,141 @@ def run(ctx, rep):
     rep.instance(R5, ok=ok, nontrivial='_compute_stats')
     if not ok:
         rep.finding(R5, 'C16.R5/_compute_stats', m.loc(TAB, st), 'Tableau._compute_stats', 'statistics no longer equal the observable counts (branches, open, closed, steps)')
+
+
+def fold_listeners(ctx, rep, R2, ab, ac, ana, atk, ara):
+    """Fold the event-listener closures of Tableau.__listen_on over mock branches: what they record
+    (stat table, open list, branch list, history) must be exactly what happened."""
+    from ..minieval import Interp, Obj, Raises
+    m = ctx.m
+    StatKey = Obj('StatKey', STEP_ADDED='STEP_ADDED', INDEX='INDEX', PARENT='PARENT', STEP_CLOSED='STEP_CLOSED', FLAGS='FLAGS',
+                  STEP_TICKED='STEP_TICKED', NODES='NODES')
+    Events = Obj('Events', AFTER_BRANCH_ADD='AFTER_BRANCH_ADD', AFTER_BRANCH_CLOSE='AFTER_BRANCH_CLOSE', AFTER_NODE_ADD='AFTER_NODE_ADD',
+                 AFTER_NODE_TICK='AFTER_NODE_TICK')
+
+    class Tab:
+        def __init__(self):
+            self.branches, self.emitted, self.current_step = [], [], 7
+            self.flag = Obj('flag', CLOSED=2, TICKED=1, STARTED=512, TIMING_INACCURATE=64)
+            self.BranchStat = lambda d: dict(d)
+
+        def __contains__(self, b):
+            return b in self.branches
+
+        def emit(self, ev, *a):
+            self.emitted.append((ev, a))
+
+    class Br:
+        def __init__(self, name, parent=None, origin=None, closed=False, nodes=()):
+            self.name, self.parent, self.origin, self.closed, self.nodes = name, parent, origin or self, closed, list(nodes)
+            self.id = name
+            self.listeners = None
+
+        def on(self, listeners):
+            self.listeners = listeners
+
+        def __len__(self):
+            return len(self.nodes)
+
+        def __iter__(self):
+            return iter(self.nodes)
+
+        def __repr__(self):
+            return self.name
+    root = Br('root', nodes=['n0', 'n1'])
+    mid = Br('mid', parent=root, origin=root)
+    leaf = Br('leaf', parent=mid, origin=root)
+    closed = Br('closed', parent=root, origin=root, closed=True)
+    for br in (root, mid, leaf, closed):
+        tab = Tab()
+        stat, opens, branches = {}, [], tab.branches
+        node_adds = []
+        pre = [Br('x0'), Br('x1')]
+        branches.extend(pre)
+        it = Interp(dict(self=tab, stat=stat, opens=opens, branches=branches, Tableau=Obj('Tableau', StatKey=StatKey, Events=Events),
+                         Emsg=Obj('Emsg', DuplicateValue=lambda *a: 'DuplicateValueError'), deque=lambda it_, maxlen=None: list(it_),
+                         EMPTY_SET=frozenset(), branch_listeners='LISTENERS',
+                         after_node_add=lambda node, branch: node_adds.append((node, branch))), where='Tableau.__listen_on.add_branch')
+        r = it.safe(ab, [br])
+        probs = []
+        if isinstance(r, Raises):
+            probs.append(f'raises {r.text}')
+        else:
+            rec = stat.get(br)
+            want = {'STEP_ADDED': 7, 'INDEX': 2, 'PARENT': br.parent}
+            if rec != want:
+                probs.append(f'recorded stat {rec} differs from step/index/parent {want}')
+            if (br in opens) != (not br.closed):
+                probs.append(f'open list {opens} (branch closed={br.closed})')
+            if branches != pre + [br]:
+                probs.append(f'branch list {branches}')
+            if [e for e in tab.emitted if e[0] == 'AFTER_BRANCH_ADD'] != [('AFTER_BRANCH_ADD', (br,))]:
+                probs.append(f'events {tab.emitted}')
+            if br.listeners != 'LISTENERS':
+                probs.append('branch listeners not attached')
+            exp_adds = [(n, br) for n in br.nodes] if br.parent is None else []
+            if node_adds != exp_adds:
+                probs.append(f'pre-existing nodes announced {node_adds}, expected {exp_adds}')
+        rep.instance(R2, ok=not probs, sample=dict(fold='add_branch', branch=br.name), nontrivial=('fold-add_branch', br.name))
+        for p_ in probs:
+            rep.finding(R2, f'C16.R2/add_branch/fold/{br.name}/{p_[:30]}', m.loc(TAB, ab), 'add_branch', f'branch {br.name} (parent {br.parent}): {p_}')
+        # duplicate registration is refused without effect
+        tab2 = Tab()
+        tab2.branches.append(br)
+        st2, op2 = {}, []
+        it2 = Interp(dict(self=tab2, stat=st2, opens=op2, branches=tab2.branches, Tableau=Obj('Tableau', StatKey=StatKey, Events=Events),
+                          Emsg=Obj('Emsg', DuplicateValue=lambda *a: 'DuplicateValueError'), deque=lambda it_, maxlen=None: list(it_),
+                          EMPTY_SET=frozenset(), branch_listeners='L', after_node_add=lambda *a: None), where='add_branch')
+        r = it2.safe(ab, [br])
+        ok = isinstance(r, Raises) and not st2 and not op2 and tab2.branches == [br]
+        rep.instance(R2, ok=ok, nontrivial=('fold-add_branch-dup', br.name))
+        if not ok:
+            rep.finding(R2, f'C16.R2/add_branch/fold/duplicate/{br.name}', m.loc(TAB, ab), 'add_branch', f'registering a branch twice is not refused without effect: {r!r}')
+    # after_close
+    tab = Tab()
+    b1, b2 = Br('b1'), Br('b2')
+    stat = {b1: {'FLAGS': 0}, b2: {'FLAGS': 0}}
+    opens = [b1, b2]
+    it = Interp(dict(self=tab, stat=stat, opens=opens, Tableau=Obj('Tableau', StatKey=StatKey, Events=Events)), where='after_close')
+    r = it.safe(ac, [b1])
+    ok = not isinstance(r, Raises) and opens == [b2] and stat[b1].get('STEP_CLOSED') == 7 and stat[b1]['FLAGS'] == 2 and stat[b2] == {'FLAGS': 0} \
+        and tab.emitted == [('AFTER_BRANCH_CLOSE', (b1,))]
+    rep.instance(R2, ok=ok, nontrivial='fold-after_close')
+    if not ok:
+        rep.finding(R2, 'C16.R2/after_close/fold', m.loc(TAB, ac), 'after_close', f'closing b1: open list {opens}, stats {stat}, events {tab.emitted}, result {r!r}')
+    # after_node_add / after_tick
+    for fn, key, flagval, ev in ((ana, 'STEP_ADDED', None, 'AFTER_NODE_ADD'), (atk, 'STEP_TICKED', 1, 'AFTER_NODE_TICK')):
+        tab = Tab()
+        nstat = {'FLAGS': 0}
+        bstat = Obj('bstat', node=lambda node: nstat)
+        node = Obj('node')
+        it = Interp(dict(self=tab, stat={b1: bstat}, Tableau=Obj('Tableau', StatKey=StatKey, Events=Events)), where=fn.name)
+        r = it.safe(fn, [node, b1])
+        ok = not isinstance(r, Raises) and nstat.get(key) == 7 and tab.emitted == [(ev, (node, b1))] and (flagval is None or nstat['FLAGS'] == flagval) \
+            and (key != 'STEP_ADDED' or getattr(node, 'step', None) == 7)
+        rep.instance(R2, ok=ok, nontrivial=f'fold-{fn.name}')
+        if not ok:
+            rep.finding(R2, f'C16.R2/{fn.name}/fold', m.loc(TAB, fn), fn.name, f'records {nstat}, events {tab.emitted}, result {r!r}')
+    # after_rule_apply: exactly one history entry, STARTED set
+    for has_entry in (True, False):
+        tab = Tab()
+        tab.flag = 0
+        history = []
+        tgt = Obj('target', rule='RULE')
+        if has_entry:
+            tgt._entry = 'ENTRY'
+        FlagNS = Obj('flagns', STARTED=512, TIMING_INACCURATE=64)
+
+        class F(int):
+            STARTED, TIMING_INACCURATE = 512, 64
+
+            def __or__(self, o):
+                return F(int(self) | int(o))
+        tab.flag = F(0)
+        it = Interp(dict(self=tab, history=history, Tableau=Obj('Tableau', StepEntry=lambda *a: ('StepEntry',) + a), Counter=lambda: 'CTR'), where='after_rule_apply')
+        r = it.safe(ara, [tgt])
+        ok = not isinstance(r, Raises) and len(history) == 1 and (history[0] == 'ENTRY' if has_entry else history[0][:3] == ('StepEntry', 'RULE', tgt)) \
+            and int(tab.flag) & 512
+        rep.instance(R2, ok=ok, nontrivial=('fold-after_rule_apply', has_entry))
+        if not ok:
+            rep.finding(R2, f'C16.R2/after_rule_apply/fold/{has_entry}', m.loc(TAB, ara), 'after_rule_apply', f'history {history}, flag {tab.flag}, result {r!r}')
